@@ -23,6 +23,9 @@ pub enum Focus {
     Reservation,
     /// a peer presenting the announced id stays connected, one presenting another id is dropped (C08)
     Identity,
+    /// every Have frame and every bit of a Bitfield frame the client writes names a piece that is
+    /// stored and verified (C11)
+    Announce,
 }
 
 #[derive(Clone)]
@@ -497,6 +500,30 @@ impl Sys for Swarm {
             }
             return None;
         }
+        if self.focus == Focus::All || self.focus == Focus::Announce {
+            for (i, p) in w.peers.iter().enumerate() {
+                if let Some(c) = &p.conn {
+                    for m in &c.msgs[c.new_from..] {
+                        match m {
+                            Msg::Have(k) if !w.has_piece_file(*k as usize) => {
+                                return Some(("have-for-unverified-piece", format!("Have({}) was written to peer {} but no verified file of that piece is stored; {}", k, i, w.session_key())));
+                            }
+                            Msg::Bitfield(bytes) => {
+                                for k in 0..self.owners[0].len() {
+                                    if bytes.get(k / 8).map(|b| b >> (7 - k % 8) & 1 == 1).unwrap_or(false) && !w.has_piece_file(k) {
+                                        return Some(("bitfield-marks-unverified-piece", format!("the bitfield written to peer {} marks piece {} but no verified file of it is stored; {}", i, k, w.session_key())));
+                                    }
+                                }
+                            }
+                            _ => {}
+                        }
+                    }
+                }
+            }
+            if self.focus == Focus::Announce {
+                return None;
+            }
+        }
         if self.focus == Focus::All || self.focus == Focus::Storage {
             if let Some(snap) = w.snap() {
                 for (i, st) in snap.statuses.iter().enumerate() {
@@ -744,6 +771,23 @@ pub fn storage_scenarios() -> Vec<(Swarm, usize)> {
         .map(|(mut s, d)| {
             s.focus = Focus::Storage;
             s.label = if s.label == "3pc-restarted-peer" { "storage-3pc-restarted-peer" } else { "storage-3pc-two-seeders-gated" };
+            (s, d)
+        })
+        .collect()
+}
+
+/// Scenarios C11 borrows (what the client announces on the wire only).
+pub fn announce_scenarios() -> Vec<(Swarm, usize)> {
+    scenarios(false)
+        .into_iter()
+        .filter(|(s, _)| s.label == "3pc-restarted-peer" || s.label == "3pc-two-seeders-gated" || s.label == "relisted-then-new")
+        .map(|(mut s, d)| {
+            s.focus = Focus::Announce;
+            s.label = match s.label {
+                "3pc-restarted-peer" => "announce-3pc-restarted-peer",
+                "3pc-two-seeders-gated" => "announce-3pc-two-seeders-gated",
+                _ => "announce-relisted-then-new",
+            };
             (s, d)
         })
         .collect()
